@@ -15,7 +15,7 @@
    mut    ::= (0 nwhere) | (1 nwhere)
    rec    ::= (0 kind where w) | (1 k) | (2 (cut ...)) | (3 pk where)
    case   ::= (spec opx (item ...) (draw ...))
-   result ::= (0 err) | (1 (out ...) leftover)      out ::= (0 id) an input object | (1 n bdna) the n-th new DNA | (2 out ...) a list
+   result ::= (0 err) | (1 (out ...) leftover)      out ::= (0 id) an input object | (1 n bdna fit?) the n-th new DNA and its fitness metadata | (2 out ...) a list
    bdna   ::= (dval spec? bdna ...)  as in GenoRun.v *)
 From Coq Require Import ZArith NArith List Bool Arith.
 Import ListNotations.
@@ -188,7 +188,7 @@ Definition pos_of (l : list nat) (v : nat) : nat := match index_in l v with Some
 Fixpoint e_out (s : dspec) (n0 : nat) (news : list nat) (x : item) {struct x} : tr :=
   match x with
   | It i => if (iid i <? n0)%nat then L [I 0; enat (iid i)]
-            else L [I 1; enat (pos_of news (iid i)); eopt e_bdna (bind q_none s (normalize (idna i)))]
+            else L [I 1; enat (pos_of news (iid i)); eopt e_bdna (bind q_none s (normalize (idna i))); eopt eZ (ifit i)]
   | Grp _ l => L (I 2 :: map (e_out s n0 news) l)
   end.
 
